@@ -8,7 +8,7 @@ STUBS = ["random.choices(population, weights, k) -> k fresh indices restricted t
          "random.randrange -> fresh bounded index"]
 BOUNDS = {
     "quick": "N in 1..3; one topology: 1..3 distinct keys with entries 0..2; two topologies: 1..2 keys (entries 0..2, 0..1 at N=3) and 3 keys "
-             "with entries 0..1 at N=2; positive symbolic weights (not normalised); motif-size vectors [1],[2],[3],[2,3],[3,2],[1,2]",
+             "with entries 0..1 at N=2; positive symbolic weights (not normalised); motif-size vectors [1],[2],[3],[2,3],[3,2],[1,2],[3,3],[2,2],[2,3,2]",
     "thorough": "N in 1..4; one topology: up to 4 keys, entries 0..3; two topologies: up to 3 keys (2 at N=4), entries 0..2",
 }
 OUTSIDE = "N>4, more than 4 keys or 2 topologies; a sampler re-implemented over random() and cumulative sums (law and minimality are " \
@@ -18,7 +18,7 @@ ASSUMPTIONS = ["random.choices draws index i with probability weights[i]/sum(wei
                "motif sizes are positive integers"]
 EXPECTED_LABELS = ["length", "divisible", "non-negative", "never-removes", "minimal-addition", "entries-are-tuples", "weighted-draw"]
 VALIDATE_EVERY = 25
-SIZES = {1: [[1], [2], [3]], 2: [[2, 3], [3, 2], [1, 2]]}
+SIZES = {1: [[1], [2], [3]], 2: [[2, 3], [3, 2], [1, 2], [3, 3], [2, 2]]}
 
 
 def configs(tier):
@@ -39,6 +39,7 @@ def configs(tier):
                 add(2, sizes, N, 3 if N < 4 else 2, 2)
     if q:
         add(2, [2, 3], 2, 3, 1)
+    cfgs.append({"name": "K3-sizes[2, 3, 2]-N2-keys2-D1", "K": 3, "sizes": [2, 3, 2], "N": 2, "nk": 2, "D": 1})
     # key components of other integer types (numpy signed / unsigned scalars, as in an empirical sequence held in an array)
     for dt in ("uint8", "uint32", "int64"):
         for sizes in ([3], [5]):
